@@ -498,7 +498,17 @@ func specialOracle(cs *Case, r result) []finding {
 		fs = append(fs, finding{What: "special: the exit status is not the last exit value", Got: fmt.Sprint(r.status), Want: fmt.Sprint(status)})
 	}
 	got := r.res.Out
-	if got != want {
+	switch {
+	case got == want:
+	case cs.Sp.Fam == "shape":
+		fs = append(fs, finding{What: "program shape x operand list: what BEGIN (through getline) / END observe — FILENAME, NR, FNR, NF, $0 and every field " +
+			"— differs from the flat specification (a var=value operand is applied when it is reached, also after the last file; END's $0 / NF / fields are " +
+			"those of the last record as it was read, whatever pattern-action rules the program has or lacks)", Got: got, Want: want})
+	case cs.Sp.Fam == "resume":
+		fs = append(fs, finding{What: "resumed reading: un-redirected getline / getline var in END or BEGIN after the main loop was left (exit in BEGIN / in a rule, " +
+			"nextfile, next, end of input): the record stream does not continue exactly where it stopped (NR, FNR, FILENAME, $0, operand order, " +
+			"assignments crossed) per the flat specification", Got: got, Want: want})
+	default:
 		fs = append(fs, finding{What: "special variables assigned by operands / -v / the program: NR, FNR, FILENAME, NF, $0, fields per record " +
 			"(and in END) differ from the flat specification (operand walk and stdin fallback depend on the operand list only; a var=value " +
 			"operand is applied when reached, also for FS / RS / INPUTMODE)", Got: got, Want: want})
